@@ -5,6 +5,7 @@ mod c10net;
 mod c13;
 mod c14;
 mod c15;
+mod c15accept;
 mod c15tls;
 mod c16;
 mod net;
@@ -91,6 +92,42 @@ fn main() {
                 let _ = std::fs::write(out, serde_json::to_string(&ev.to_json()).unwrap());
             } else {
                 println!("c10serial: {:?} violations {}", ev.counters, ev.violations.len());
+            }
+            0
+        }
+        "c01pty" => {
+            // RTU server on a port that is lost (sometimes mid-frame) and comes back: well-framed requests on
+            // the new port are answered (C01 evidence, merged by the sim engine)
+            let rt = tokio::runtime::Builder::new_multi_thread().worker_threads(4).enable_all().build().unwrap();
+            let mut ev = vcommon::report::Evidence::new();
+            for k in 0..args.tier.pick(4usize, 24) {
+                let mut e = vcommon::report::Evidence::new();
+                let problems = rt.block_on(serial::rtu_server_reopen(k, &mut e));
+                ev.merge(e);
+                ev.eval();
+                ev.count("rtu_server_reopen_sessions", 1);
+                let keep: Vec<_> = problems.into_iter().filter(|(s, _)| s.contains("no_service") || s.contains("valid_frame_reply")).collect();
+                serial::merge(&mut ev, keep, "c01pty");
+            }
+            if let Some(out) = args.extra.get("out") {
+                let _ = std::fs::write(out, serde_json::to_string(&ev.to_json()).unwrap());
+            } else {
+                println!("c01pty: {:?} violations {}", ev.counters, ev.violations.len());
+            }
+            0
+        }
+        "c15accept" => {
+            // descriptor exhaustion: runs alone in this process (spawned by the C15 check)
+            let rt = tokio::runtime::Builder::new_multi_thread().worker_threads(2).enable_all().build().unwrap();
+            let mut ev = vcommon::report::Evidence::new();
+            rt.block_on(c15accept::run(&mut ev, args.tier.pick(4usize, 40), args.seed));
+            if let Some(out) = args.extra.get("out") {
+                let _ = std::fs::write(out, serde_json::to_string(&ev.to_json()).unwrap());
+            } else {
+                for v in ev.violations.iter() {
+                    println!("violation: sig={} :: {}", v.sig, v.what);
+                }
+                println!("c15accept: {:?} inconclusive {:?}", ev.counters, ev.inconclusive);
             }
             0
         }
